@@ -150,6 +150,8 @@ def copies_stage(rep, quick):
     """C07: copies into NEW trees (Tree.copy, Node.copy, copy_to a fresh tree) on every labelled forest in the bound"""
     sts = labelled(rep, max_nodes=4 if quick else 5, d=2, label="copies:labelled")
     run_states(rep, "C07", sts, "str", {}, "copies")
+    # Tree(forward_attrs=True) over data objects that have a `kind` attribute of their own
+    run_states(rep, "C07", sts if not quick else sts[::3], "fwd", {}, "copies-fwd")
     sts2 = labelled(rep, max_nodes=3, d=2, xids=(0, 11), label="copies:ids")
     run_states(rep, "C07", sts2, "str", {}, "copies-ids")
     sts3 = labelled(rep, max_nodes=3, d=2, typed=True, kinds=(0, 2), label="copies:typed")
